@@ -153,6 +153,14 @@ fn no_conflict(sig: &syn::Signature) -> bool {
 
 fn same_shape(a: &syn::Signature, b: &syn::Signature) -> bool {
     a.ident == b.ident
+        // frame: a stage renames parameters and touches nothing else of the signature
+        && a.asyncness.is_some() == b.asyncness.is_some()
+        && a.unsafety.is_some() == b.unsafety.is_some()
+        && a.constness.is_some() == b.constness.is_some()
+        && a.abi.as_ref().map(tt_string) == b.abi.as_ref().map(tt_string)
+        && tt_string(&a.generics) == tt_string(&b.generics)
+        && a.generics.where_clause.as_ref().map(tt_string) == b.generics.where_clause.as_ref().map(tt_string)
+        && tt_string(&a.output) == tt_string(&b.output)
         && a.inputs.len() == b.inputs.len()
         && a.inputs.iter().zip(b.inputs.iter()).all(|(x, y)| match (x, y) {
             (syn::FnArg::Typed(p), syn::FnArg::Typed(q)) => tt_string(&p.ty) == tt_string(&q.ty),
@@ -203,7 +211,10 @@ fn c16_stages(ctx: &Ctx, r: &mut Report) {
                 for (i, s) in seq.iter().enumerate() {
                     params.push(format!("{}: T{}", ALPHABET[*s].pat, i));
                 }
-                let src = format!("fn foo({})", params.join(", "));
+                // the frame of the stage contracts is exercised on a header that has something to lose
+                let headers: &[(&str, &str)] = if n <= 2 { &[("fn foo", ""), ("async unsafe fn foo<'a, G: Clone>", " -> Vec<&'a G> where G: Send")] } else { &[("fn foo", "")] };
+                for (head, rest) in headers {
+                let src = format!("{}({}){}", head, params.join(", "), rest);
                 r.guarded(&src, |r| {
                     let s0: syn::Signature = syn::parse_str(&src).unwrap();
                     let fix = |r: &mut Report, before: &syn::Signature, at: &str| -> syn::Signature {
@@ -219,7 +230,7 @@ fn c16_stages(ctx: &Ctx, r: &mut Report) {
                             r.fail("fix-leaves-conflict", &src, format!("{}: after fix_ident_conflicts a parameter is still named like the function: `{}`", at, tt_string(&after)));
                         }
                         if !same_shape(before, &after) {
-                            r.fail("stage-changes-shape", &src, format!("{}: fix_ident_conflicts changed the parameter list's shape: `{}`", at, tt_string(&after)));
+                            r.fail("stage-changes-shape", &src, format!("{}: fix_ident_conflicts changed the signature beyond its parameter names: `{}`", at, tt_string(&after)));
                         }
                         after
                     };
@@ -230,7 +241,7 @@ fn c16_stages(ctx: &Ctx, r: &mut Report) {
                             r.fail("lift-status", &src, format!("{}: lift_inner_pat_idents returned {} for `{}`", at, if ok { "Ok" } else { "NeedsFix" }, tt_string(&after)));
                         }
                         if !same_shape(before, &after) {
-                            r.fail("stage-changes-shape", &src, format!("{}: lift_inner_pat_idents changed the parameter list's shape: `{}`", at, tt_string(&after)));
+                            r.fail("stage-changes-shape", &src, format!("{}: lift_inner_pat_idents changed the signature beyond its parameter names: `{}`", at, tt_string(&after)));
                         }
                         (ok, after)
                     };
@@ -241,7 +252,7 @@ fn c16_stages(ctx: &Ctx, r: &mut Report) {
                             r.fail("autogenerate-leaves-pattern", &src, format!("{}: after autogenerate_for_non_idents a pattern is left: `{}`", at, tt_string(&after)));
                         }
                         if !same_shape(before, &after) {
-                            r.fail("stage-changes-shape", &src, format!("{}: autogenerate_for_non_idents changed the parameter list's shape: `{}`", at, tt_string(&after)));
+                            r.fail("stage-changes-shape", &src, format!("{}: autogenerate_for_non_idents changed the signature beyond its parameter names: `{}`", at, tt_string(&after)));
                         }
                         after
                     };
@@ -255,6 +266,7 @@ fn c16_stages(ctx: &Ctx, r: &mut Report) {
                     let _ = fix(r, &s2, "after fix, lift");
                     let _ = fix(r, &s3, "after fix, lift, autogenerate");
                 });
+                }
             }
         }
     }
